@@ -37,6 +37,12 @@ pub struct Rule {
 
 #[derive(Clone, Debug, Serialize, Deserialize, PartialEq, Eq)]
 pub struct Term {
+    /// 0 = "string", 1 = 'raw string', 2 = /regex/
+    #[serde(default)]
+    pub kind: u8,
+    /// lookahead suffix: (positive?, text)
+    #[serde(default)]
+    pub lookahead: Option<(bool, String)>,
     pub text: String,
     /// scanner states (indices into Gram::scanners; empty = INITIAL only, unannotated)
     pub states: Vec<usize>,
@@ -78,6 +84,8 @@ impl Ctx<'_> {
     fn fresh_t(&mut self) -> usize {
         let i = self.terminals.len();
         self.terminals.push(Term {
+            kind: 0,
+            lookahead: None,
             text: format!("t{i}"),
             states: vec![],
         });
@@ -232,6 +240,17 @@ pub fn generate(rng: &mut Rng) -> Gram {
     let ties = ctx.ties;
     let mut terminals = std::mem::take(&mut ctx.terminals);
     let rng = ctx.rng;
+    // terminal kinds and lookahead expressions (a fifth of the grammars)
+    if rng.chance(1, 5) {
+        for t in terminals.iter_mut() {
+            if rng.chance(1, 4) {
+                t.kind = rng.range(1, 2) as u8;
+            }
+            if rng.chance(1, 8) {
+                t.lookahead = Some((rng.chance(1, 2), format!("la{}", rng.below(3))));
+            }
+        }
+    }
 
     // scanner states: wrapper rules `Wk: "tk";` for transitions
     let mut scanners = vec![];
@@ -402,7 +421,14 @@ fn render_alt(g: &Gram, a: &Alt, out: &mut String) {
                         out.push_str(&format!("<{}>", names.join(", ")));
                     }
                 }
-                out.push_str(&format!("\"{}\"", term.text));
+                match term.kind {
+                    1 => out.push_str(&format!("'{}'", term.text)),
+                    2 => out.push_str(&format!("/{}/", term.text)),
+                    _ => out.push_str(&format!("\"{}\"", term.text)),
+                }
+                if let Some((pos, la)) = &term.lookahead {
+                    out.push_str(&format!(" {} \"{}\"", if *pos { "?=" } else { "?!" }, la));
+                }
             }
             Sym::N(n) => out.push_str(&g.rules[*n].name),
             Sym::Attr(inner, code) => {
@@ -568,6 +594,15 @@ pub fn reductions(g: &Gram) -> Vec<Gram> {
         h.initial_transitions.clear();
         for t in h.terminals.iter_mut() {
             t.states.clear();
+        }
+        out.push(h);
+    }
+    // plain string terminals without lookahead
+    if g.terminals.iter().any(|t| t.kind != 0 || t.lookahead.is_some()) {
+        let mut h = g.clone();
+        for t in h.terminals.iter_mut() {
+            t.kind = 0;
+            t.lookahead = None;
         }
         out.push(h);
     }
